@@ -45,7 +45,7 @@ def inject(cid, has_a, has_b, la, lb, ca, cb):
     dist._distinct_value_to_count_map = d
 
 
-def operate(cid, op, rows, dirty=None, limit=None):
+def operate(cid, op, rows, dirty=None, limit=None, with_text=False):
     """-> outcome tuple (items, raised, close_raised); `dirty` is called at the point where the earlier history
     is allowed to have happened (before the run starts)."""
     from cutplace import validio, errors
@@ -57,14 +57,15 @@ def operate(cid, op, rows, dirty=None, limit=None):
     def note(r):
         if isinstance(r, errors.DataError):
             sa = r.see_also_location
-            items.append(("err", type(r).__name__, r.location.line, r.location.cell, None if sa is None else sa.line))
+            items.append(("err", type(r).__name__, r.location.line, r.location.cell, None if sa is None else sa.line) +
+                         ((str(r),) if with_text else ()))
         else:
             items.append(("row", r))
 
     def err(e):
         loc = e.location
         sa = e.see_also_location
-        return (type(e).__name__, None if loc is None else loc.line, None if sa is None else sa.line)
+        return (type(e).__name__, None if loc is None else loc.line, None if sa is None else sa.line) + ((str(e),) if with_text else ())
 
     if op in ("rows-yield", "rows-continue", "rows-raise"):
         if dirty:
@@ -304,6 +305,8 @@ def run_history(cid, hop, rows):
         pass
 
 
+CID_TEXT_AT_LEAST_ONE = ("d,format,delimited\nf,k,,,,Choice,\"a,b\"\nf,v,,X,...1,Text,\n"
+                         "c,uniq,IsUnique,k\nc,dist,DistinctCount,k >= 1\n")
 CID_TEXT_VALUE_COUNT = ("d,format,delimited\nf,k,,,,Choice,\"a,b\"\nf,v,,X,...1,Text,\n"
                         "c,uniq,IsUnique,k\nc,dist,DistinctCount,v <= 1\n")
 
@@ -318,11 +321,11 @@ def make_two_runs(hop, op, cid_text=None, value_alphabet=None):
         with patched(rf.smart_repr(), *rf.srows_patches()):
             fresh = rf.build_cid(cid_text or CID_TEXT)
             rf.set_header(fresh, header)
-            expected = operate(fresh, op, rows)
+            expected = operate(fresh, op, rows, with_text=True)
             used = rf.build_cid(cid_text or CID_TEXT)
             run_history(used, hop, hrows)
             rf.set_header(used, header)
-            got = operate(used, op, rows)
+            got = operate(used, op, rows, with_text=True)
         ok = same(got, expected)
         cls = "endfail" if (expected[2] or expected[1]) else "endok"
         return ok, cls, hrows, rows, got, expected
@@ -443,6 +446,14 @@ def build(tier, seed):
                              "IsUnique k declared before DistinctCount v <= 1: a real earlier run (%s) then %s on 2 rows (keys a/b/c, "
                              "values x/y), header 0..2, all symbolic" % (hop, op), budget_s=900, per_path_timeout=120, replay=rp,
                              functions=FUNCS, stubs=("S-ROWS", "S-FMT")))
+    # a run that validates no row at all after a real earlier run: the end-of-data error (type, location, see-also,
+    # text) is the one a fresh CID gives; and the same rejected value met again gives the same error text
+    for hop, op in (("rows-yield", "reader-late"), ("rows-yield", "rows-yield")):
+        mk, rp = make_two_runs(hop, op, CID_TEXT_AT_LEAST_ONE)
+        queries.append(Query("C08/two-runs-error-text/%s/then/%s" % (hop, op), "two-runs", mk,
+                             "IsUnique k + DistinctCount k >= 1 (fails on no data): a real earlier run (%s) then %s on 2 rows, header 0..2 "
+                             "(2 = no row validated); errors compared with their text and see-also location" % (hop, op),
+                             budget_s=900, per_path_timeout=120, replay=rp, functions=FUNCS, stubs=("S-ROWS", "S-FMT")))
     for hop in FIXED_HISTORY:
         ml = 6 if tier == "quick" else 8
         mk, rp = make_fixed_two_runs(hop, ml)
